@@ -54,6 +54,11 @@ var props = map[string]propInfo{
 	"C09": {Engine: "bgp", Quick: 1500, Thorough: 40000},
 	"C10": {Engine: "bgp", Quick: 1500, Thorough: 40000},
 	"C11": {Engine: "bgp", Quick: 1500, Thorough: 40000},
+	"C12": {Engine: "bgp", Quick: 1200, Thorough: 30000},
+	"C13": {Engine: "bgp", Quick: 1200, Thorough: 30000},
+	"C19": {Engine: "bgp", Quick: 1200, Thorough: 30000},
+	"C21": {Engine: "bgp", Quick: 800, Thorough: 20000},
+	"C22": {Engine: "bgp", Quick: 500, Thorough: 10000, BatchSize: 20},
 	"C20": {Engine: "bgp", Quick: 1500, Thorough: 40000},
 }
 
@@ -664,10 +669,22 @@ func main() {
 		if c.Index < 0 {
 			infra("%s", c.Stderr)
 		}
-		if info.CrashOwner {
-			v := violation{Prop: prop, Assertion: "dut_crash", Detail: crashSummary(c.Stderr)}
-			byAssertion["dut_crash"] = append(byAssertion["dut_crash"], vio{outLine{Index: c.Index, Seed: c.Seed}, v})
+		// a crash of the device under test under a property's workload violates that property
+		// (nothing holds for a daemon that died); known crashes are matched through their summary
+		v := violation{Prop: prop, Assertion: "dut_crash", Detail: crashSummary(c.Stderr)}
+		l := outLine{Index: c.Index, Seed: c.Seed}
+		if len(byAssertion["dut_crash"]) < 3 {
+			// the run did not finish, so its plan was never emitted: regenerate it from the index
+			pf := filepath.Join(work, fmt.Sprintf("plan-%d.jsonl", c.Index))
+			run(work, 2*time.Minute, bin, "-test.run", "^TestProp$", "-test.cpu", "1", "-prop", prop, "-seed", strconv.FormatUint(seed, 10),
+				"-from", strconv.Itoa(c.Index), "-runs", "1", "-planonly", "-out", pf)
+			for _, pl := range readLines(pf) {
+				if pl.Kind == "plan" {
+					l.Plan = pl.Plan
+				}
+			}
 		}
+		byAssertion["dut_crash"] = append(byAssertion["dut_crash"], vio{l, v})
 	}
 	var assertions []string
 	for a := range byAssertion {
@@ -705,7 +722,16 @@ func main() {
 			continue
 		}
 		// report: confirm and minimise the smallest failing plan
-		sort.SliceStable(unknown, func(i, j int) bool { return len(unknown[i].line.Plan) < len(unknown[j].line.Plan) })
+		sort.SliceStable(unknown, func(i, j int) bool {
+			li, lj := len(unknown[i].line.Plan), len(unknown[j].line.Plan)
+			if li == 0 {
+				li = 1 << 30
+			}
+			if lj == 0 {
+				lj = 1 << 30
+			}
+			return li < lj
+		})
 		x := unknown[0]
 		path := reportViolation(bin, work, prop, a, x.line, x.v, *tier)
 		// after minimisation the detail may have changed: re-classify once
